@@ -158,6 +158,9 @@ type Options struct {
 // when all non-daemon threads have finished, nothing can run, the horizon is
 // exceeded or a thread panicked.
 func Run(c *nd.Ctx, opt Options, main func()) Outcome {
+	if Free {
+		return freeRun(main)
+	}
 	if active.Load() != nil {
 		panic("vs: nested Run")
 	}
@@ -643,6 +646,10 @@ func Go(fn func()) { GoNamed("", false, fn) }
 func GoNamed(name string, daemon bool, fn func()) {
 	s := active.Load()
 	if s == nil {
+		if Free {
+			freeGo(daemon, fn)
+			return
+		}
 		go fn()
 		return
 	}
@@ -675,6 +682,9 @@ func current() (*sched, *thread) {
 func Yield(label string) {
 	s, t := current()
 	if s == nil {
+		if Free {
+			runtime.Gosched()
+		}
 		return
 	}
 	t.op, t.label = opYield, label
@@ -696,6 +706,10 @@ func Block(label string, pred func() bool) {
 	s, t := current()
 	if s == nil {
 		if a := active.Load(); a != nil && a.abort {
+			return
+		}
+		if Free {
+			freeBlock(pred)
 			return
 		}
 		passCond.L.Lock()
